@@ -269,6 +269,8 @@ def batch_run(model_cls: Type[Model], parameters: Union[ParameterList, Dict[str,
         raise AttributeError(
             f"'collectors' argument must be of type None, str or Iterable. Encountered type {type(collectors)}."
         )
+    if collectors is not None and type(collectors) != str:
+        collectors = list(collectors)  # The names are needed once per execution: a one-shot iterable would run dry
     # Build Parameter List
     simulation_kwargs = parameters.build() if type(parameters) == ParameterList else ParameterList(parameters).build()
     skwargs_with_repetition = simulation_kwargs * repetitions
